@@ -22,7 +22,8 @@ def freshChain : Chain :=
   { Chain.empty with evm := { Evm.empty with bal := fun t a => if t = 0 ∧ a = 0 then userNative else 0 } }
 
 def fresh : St :=
-  { w := { cfg := freshCfg, chains := fun _ => freshChain }, ntok := fun _ => 1, fixed := true }
+  { w := { cfg := freshCfg, chains := fun _ => freshChain, reg := fun _ => [], ackTag := fun _ _ _ => 0 },
+    ntok := fun _ => 1, fixed := true }
 
 def kv (k : String) (v : Nat) : String := k ++ "=" ++ toString v
 
@@ -74,6 +75,18 @@ def parseCall (s : String) : Option Call :=
   | _ => none
 
 def nats (l : List String) : Option (List Nat) := l.mapM (·.toNat?)
+
+/-- optional trailing `by<acct>`: the account that signs the relay message (default 0) -/
+def signerOf (rest : List String) : Nat :=
+  match rest.find? (fun t => t.startsWith "by") with
+  | some t => ((t.drop 2).toString.toNat?).getD 0
+  | none => 0
+
+/-- `<chain>:<tag>` -/
+def parseChainTag (s : String) : Option (Nat × Nat) :=
+  match s.splitOn ":" with
+  | [c, t] => do let c ← c.toNat?; let t ← t.toNat?; pure (c, t)
+  | _ => none
 
 /-- a batch leg: `A,<tok>,<amt>` or `S,<dst>,<tok>,<amt>,<receiver>,<feeTok>,<feeAmt>,<call>` -/
 def parseLeg (s : String) : Option Leg :=
@@ -136,6 +149,11 @@ def step (st : St) (line : String) : St × String :=
         let st := { st with w := World.step st.fixed st.w (.send c snd a) }
         (st, "ok " ++ dump st c)
     | _, _ => (st, "bad-op")
+  | "register" :: c :: a :: rank :: cts =>
+    match nats [c, a, rank], cts.mapM parseChainTag with
+    | some [c, a, rank], some cts =>
+      ({ st with w := World.step st.fixed st.w (.register c a rank cts) }, "ok")
+    | _, _ => (st, "bad-op")
   | "batch" :: c :: snd :: strict :: legs =>
     match nats [c, snd, strict], legs.mapM parseLeg with
     | some [c, snd, strict], some legs =>
@@ -148,26 +166,28 @@ def step (st : St) (line : String) : St × String :=
   | "recv" :: s :: d :: q :: rest =>
     match nats [s, d, q] with
     | some [s, d, q] =>
-      let forged := !rest.isEmpty
+      let forged := rest.contains "forge"
+      let signer := signerOf rest
       let accepted : Option Chain :=
         if forged then none else
-        match findPacket (st.w.chains s).commits d q with
-        | none => none
-        | some p => recvHandler st.fixed (st.w.cfg d) d (st.w.chains d) p
+        match findPacket (st.w.chains s).commits d q, (st.w.reg d).onOther s signer with
+        | some p, some _ => recvHandler st.fixed (st.w.cfg d) d (st.w.chains d) p
+        | _, _ => none
       match accepted with
       | none => (st, "err " ++ dump st d)
       | some c' =>
-        let st := { st with w := World.step st.fixed st.w (.recv s d q) }
+        let st := { st with w := World.step st.fixed st.w (.recv s d q signer) }
         (st, "ok code=" ++ toString ((c'.acks s q).getD 999) ++ " " ++ dump st d)
     | _ => (st, "bad-op")
   | "ack" :: s :: d :: q :: rest =>
     match nats [s, d, q] with
     | some [s, d, q] =>
-      let forged := !rest.isEmpty
+      let forged := rest.contains "forge"
       let accepted : Option Chain :=
         if forged then none else
         match findPacket (st.w.chains s).commits d q, (st.w.chains d).acks s q with
-        | some p, some code => ackHandler (st.w.cfg s) s (st.w.chains s) p code
+        | some p, some code =>
+          ackHandler (st.w.cfg s) s (st.w.chains s) p code ((st.w.reg s).onTeleport d (st.w.ackTag d s q))
         | _, _ => none
       match accepted with
       | none => (st, "err " ++ dump st s)
